@@ -103,7 +103,7 @@ fn proxy_settings(v: u8) -> attohttpc::ProxySettings {
 
 fn apply_session(s: &mut attohttpc::Session, f: Field, v: u8) {
     match f {
-        Field::MaxRedirections => s.max_redirections(v as u32),
+        Field::MaxRedirections => s.max_redirections(if v == 1 { 1 } else { 0 }),
         Field::FollowRedirects => s.follow_redirects(v == 1),
         Field::MaxHeaders => s.max_headers(if v == 1 { 3 } else { 50 }),
         Field::AllowCompression => s.allow_compression(v == 1),
@@ -119,7 +119,7 @@ fn apply_session(s: &mut attohttpc::Session, f: Field, v: u8) {
 
 fn apply_builder(b: attohttpc::RequestBuilder, f: Field, v: u8) -> attohttpc::RequestBuilder {
     match f {
-        Field::MaxRedirections => b.max_redirections(v as u32),
+        Field::MaxRedirections => b.max_redirections(if v == 1 { 1 } else { 0 }),
         Field::FollowRedirects => b.follow_redirects(v == 1),
         Field::MaxHeaders => b.max_headers(if v == 1 { 3 } else { 50 }),
         Field::AllowCompression => b.allow_compression(v == 1),
@@ -142,7 +142,7 @@ fn expect_snapshot(v: &Val, base: &Snapshot) -> Snapshot {
             continue;
         }
         match f {
-            Field::MaxRedirections => s.max_redirections = x as u32,
+            Field::MaxRedirections => s.max_redirections = if x == 1 { 1 } else { 0 },
             Field::FollowRedirects => s.follow_redirects = x == 1,
             Field::MaxHeaders => s.max_headers = if x == 1 { 3 } else { 50 },
             Field::AllowCompression => s.allow_compression = Some(x == 1),
@@ -352,7 +352,8 @@ const CHAIN: usize = 3;
 fn predict(v: &Val) -> WireObs {
     let max = match v.get(Field::MaxRedirections) {
         0 => 5,
-        x => x as usize,
+        1 => 1,
+        _ => 0,
     };
     let follow = v.get(Field::FollowRedirects) != 2;
     let max_headers = match v.get(Field::MaxHeaders) {
@@ -841,6 +842,72 @@ fn obs_text_cells(ctx: &Ctx) -> u64 {
     n
 }
 
+/// The authentication helpers set the Authorization field like `header()` does: whatever was there
+/// (from the session, from an earlier helper call) is replaced.
+fn auth_helper_cells(ctx: &Ctx) -> u64 {
+    let mut n = 0;
+    for inherited in [0u8, 1, 2, 3] {
+        for helper in [0u8, 1, 2] {
+            for via_send in [false, true] {
+                n += 1;
+                let mut s = attohttpc::Session::new();
+                if inherited == 1 {
+                    s.header("Authorization", "Bearer from-session");
+                }
+                let mut rb = s.get(URL);
+                match inherited {
+                    2 => rb = rb.bearer_auth("earlier-token"),
+                    3 => rb = rb.header("authorization", "Basic b2xkOm9sZA==").header_append("Authorization", "Bearer second"),
+                    _ => {}
+                }
+                let expected: Vec<String> = match helper {
+                    0 => {
+                        rb = rb.bearer_auth("new-token");
+                        vec!["Bearer new-token".to_string()]
+                    }
+                    1 => {
+                        rb = rb.basic_auth("user", Some("pass"));
+                        vec!["Basic dXNlcjpwYXNz".to_string()]
+                    }
+                    _ => {
+                        rb = rb.basic_auth("user", Some("pass")).bearer_auth("last");
+                        vec!["Bearer last".to_string()]
+                    }
+                };
+                let got: Vec<String> = if via_send {
+                    let world = World::install(false, |_, _| Ok(Script::plain(b"HTTP/1.1 200 OK\r\nContent-Length: 0\r\n\r\n".to_vec())));
+                    let _ = guarded(|| rb.send().map(|r| r.status().as_u16()));
+                    let conns = world.conns.lock().unwrap();
+                    let w = conns.first().map(|c| c.shared.lock().unwrap().written.clone()).unwrap_or_default();
+                    match parse_single_request(&w) {
+                        Ok(req) => req.header_all("authorization").iter().map(|v| String::from_utf8_lossy(v).into_owned()).collect(),
+                        Err(e) => vec![format!("<request does not parse: {e}>")],
+                    }
+                } else {
+                    match guarded(|| rb.try_prepare()) {
+                        Ok(Ok(p)) => p.headers().get_all("authorization").iter().map(|v| String::from_utf8_lossy(v.as_bytes()).into_owned()).collect(),
+                        other => vec![format!("<prepare: {:?}>", other.map(|r| r.map(|_| ())))],
+                    }
+                };
+                if got != expected {
+                    ctx.violation(
+                        "C16:auth-helper-does-not-replace",
+                        format!(
+                            "Authorization before the helper: {}; helper: {}; request {}: Authorization values {got:?}, expected {expected:?}",
+                            ["none", "set on the session", "an earlier bearer_auth on the request", "set and appended on the request"][inherited as usize],
+                            ["bearer_auth", "basic_auth", "basic_auth then bearer_auth"][helper as usize],
+                            if via_send { "sent" } else { "prepared" }
+                        ),
+                        json!({"engine": "c16", "obs_text": true}),
+                        n,
+                    );
+                }
+            }
+        }
+    }
+    n
+}
+
 fn plans(tier: Tier) -> Vec<Plan> {
     let mut v = Vec::new();
     let d = tier.pick(7, 8);
@@ -859,6 +926,7 @@ fn plans(tier: Tier) -> Vec<Plan> {
     v.push(Plan { name: "headers:x-a".into(), fields: vec![], values: vec![], header_ops: hops(&["X-A"]), max_objects: 3, depth: tier.pick(6, 7), drops: false });
     v.push(Plan { name: "headers:accept".into(), fields: vec![], values: vec![], header_ops: hops(&["Accept"]), max_objects: 3, depth: tier.pick(5, 6), drops: false });
     v.push(Plan { name: "headers:user-agent+x-a".into(), fields: vec![], values: vec![], header_ops: vec![(false, "User-Agent".into(), "1".into()), (true, "x-a".into(), "2".into()), (false, "X-A".into(), "1".into())], max_objects: 3, depth: tier.pick(5, 6), drops: false });
+    v.push(Plan { name: "pair:redirect-settings".into(), fields: vec![Field::MaxRedirections, Field::FollowRedirects], values: vec![1, 2], header_ops: vec![], max_objects: 3, depth: tier.pick(5, 6), drops: false });
     v.push(Plan { name: "mixed:all-fields+header".into(), fields: FIELDS.to_vec(), values: vec![1], header_ops: vec![(true, "X-A".into(), "1".into())], max_objects: 3, depth: tier.pick(4, 5), drops: false });
     v
 }
@@ -876,7 +944,7 @@ pub fn c16(ctx: &Ctx) -> Report {
         tot.sends += s.sends;
     }
     let smoke = threads_smoke(ctx, &base);
-    let mcells = method_cells(ctx) + obs_text_cells(ctx);
+    let mcells = method_cells(ctx) + obs_text_cells(ctx) + auth_helper_cells(ctx);
     tot.executions += mcells;
     ctx.sample(json!({"plan": ps[0], "history": [Op::NewSession, Op::Set(0, Field::MaxRedirections, 1), Op::NewBuilder(0), Op::Set(1, Field::MaxRedirections, 2), Op::Clone(0), Op::Drop(0)]}));
     ctx.sample(json!({"plan": ps[ps.len() - 1]}));
@@ -939,6 +1007,7 @@ pub fn replay(v: &serde_json::Value) -> i32 {
         let ctx = Ctx::new("C16", Tier::Quick);
         method_cells(&ctx);
         obs_text_cells(&ctx);
+        auth_helper_cells(&ctx);
         let vs = ctx.drain_violations();
         for (v, n) in &vs {
             println!("{}: {} ({n} cases)", v.signature, v.what);
